@@ -197,6 +197,10 @@ func watchdog() {
 
 // Go starts a harness thread.
 func Go(f func()) {
+	if stress.on {
+		stressGo(f)
+		return
+	}
 	ts.mu.Lock()
 	initThreads()
 	t := &thread{id: len(ts.threads), wake: make(chan struct{}, 1), parked: true}
@@ -226,6 +230,10 @@ func Go(f func()) {
 
 // Yield is a scheduling point (call it from every environment stub).
 func Yield() {
+	if stress.on {
+		runtime.Gosched()
+		return
+	}
 	ts.mu.Lock()
 	n := len(ts.threads)
 	ts.mu.Unlock()
@@ -244,6 +252,9 @@ func Yield() {
 // Sync makes a thread that was blocked inside real code wait for its turn
 // again before it touches harness state (no-op under the engine).
 func Sync() {
+	if stress.on {
+		return
+	}
 	ts.mu.Lock()
 	n := len(ts.threads)
 	ts.mu.Unlock()
@@ -268,6 +279,11 @@ func allDone(except *thread) bool {
 
 // WaitAll blocks until all other harness threads have finished.
 func WaitAll() {
+	if stress.on {
+		stressRelease()
+		stress.wg.Wait()
+		return
+	}
 	ts.mu.Lock()
 	n := len(ts.threads)
 	ts.mu.Unlock()
@@ -305,6 +321,9 @@ func outcomeOf(p any) string {
 // has finished (the engine explores the orders in which they may run), then
 // continues. Natively it performs the hand-overs the engine recorded.
 func Quiesce() {
+	if stress.on {
+		panic("verifrt: Quiesce is not available in stress replays")
+	}
 	ts.mu.Lock()
 	n := len(ts.threads)
 	ts.mu.Unlock()
